@@ -221,6 +221,7 @@ func c08name(c *engine.Ctx, k *c08canary, config, name string, maxArgs int) {
 			}
 			r := c08eval(env, src)
 			c.Count("calls", 1)
+			c.Evals++
 			if r.timeout {
 				timeouts++
 				c.Count("blocked_calls", 1)
@@ -232,6 +233,13 @@ func c08name(c *engine.Ctx, k *c08canary, config, name string, maxArgs int) {
 				}
 				continue
 			}
+			cls := "value"
+			if r.err != "" {
+				cls = "error:" + c01sig(r.err)
+			} else if r.panicked != "" {
+				cls = "panic"
+			}
+			c.Outcome(config + "|" + name + "|" + rt + "|" + cls)
 			viol := func(clause, detail string) {
 				c.Violation(clause, "C08/"+clause+"/"+config+"/"+name, w, detail+"\n  script: "+src)
 			}
@@ -287,6 +295,7 @@ func c08cli(c *engine.Ctx, k *c08canary) {
 		cmd.Stdin = strings.NewReader("")
 		out, _ := cmd.CombinedOutput()
 		c.Count("cli_runs", 1)
+		c.Evals++
 		viol := func(clause, detail string) {
 			c.Violation(clause, "C08/cli-"+clause+"/"+strings.Fields(strings.Trim(f, "({ "))[0], w, detail+"\n  zygo -sandbox -c "+f)
 		}
@@ -337,6 +346,7 @@ func c08dynamic(c *engine.Ctx, k *c08canary, only string) {
 					} {
 						r := c08eval(env, src)
 						c.Count("dynamic_calls", 1)
+						c.Evals++
 						viol := func(clause, detail string) {
 							c.Violation(clause, fmt.Sprintf("C08/dyn-%s/%s/%s/route%d", clause, config, n, ri), w, detail+"\n  script: "+src)
 						}
